@@ -587,7 +587,38 @@ fn layer3(tier: Tier) -> L3 {
         },
         |_| {},
     );
-    let r = results.into_inner().unwrap();
+    let mut r = results.into_inner().unwrap();
+    // zero patterns (an empty -f file): no line matches, so -v reports every line
+    {
+        std::fs::write(scratch.path.join("empty.pat"), b"").unwrap();
+        let nlines = 5u64; // f0
+        for (flags, want) in [
+            (vec!["-n"], vec![]),
+            (vec!["-n", "-v"], (1..=nlines).collect::<Vec<u64>>()),
+            (vec!["-n", "-v", "-i"], (1..=nlines).collect()),
+            (vec!["-n", "-v", "-w"], (1..=nlines).collect()),
+            (vec!["-n", "-v", "-F"], (1..=nlines).collect()),
+            (vec!["-n", "-v", "-x"], (1..=nlines).collect()),
+        ] {
+            let out = std::process::Command::new(&rg)
+                .current_dir(&scratch.path)
+                .args(["--no-config", "--no-heading", "--color", "never", "-f", "empty.pat"])
+                .args(&flags)
+                .arg("f0")
+                .output()
+                .unwrap_or_else(|_| machinery_error("cannot run rg"));
+            r.0 += 1;
+            let got: Vec<u64> = String::from_utf8_lossy(&out.stdout).lines().filter_map(|l| l.split(':').next().and_then(|d| d.parse().ok())).collect();
+            let status = out.status.code().unwrap_or(-1);
+            if got != want || (status == 0) == want.is_empty() {
+                r.1.push((
+                    None,
+                    format!("cli | zero patterns (-f empty) {} | f0", flags.join(" ")),
+                    json!({"kind":"cli-zero-patterns","flags":flags,"printed_lines":got,"expected_lines":want,"status":status,"stderr":String::from_utf8_lossy(&out.stderr)}),
+                ));
+            }
+        }
+    }
     L3 { runs: r.0, disc: r.1 }
 }
 
@@ -680,7 +711,7 @@ pub fn run(args: &Args) -> ! {
     ev.set(
         "rule",
         format!(
-            "layer 1 (explicit-state, all lines): for every token pattern of length <= 3 over the C11 grammar (length <= 2 for the non-core option sets on the quick tier), {} limit/raw-control-character patterns and every ordered pair of {} pool patterns as two -e patterns, x {} option sets (-i/-S, -w, -x, -F, --crlf, --null-data, --no-unicode): (a) product of the DFA of the pattern as written (harness-built from the flag documentation) and of the matcher's final HIR over all lines free of terminator bytes; (b) product of the final HIR's DFA run inside a buffer (look-behind start / previous terminator; followed by \\n, \\r\\n or end of input) and run on the stripped line: same verdict. Witnesses are confirmed on the real Searcher (fast path vs slow path) before they count. layer 2 (enumeration): every byte string over {{a,b,-,\\n,\\r,0xFF,é}} up to length {} x {} patterns x 7 option sets x invert x (slice, reader capacity 1, reader capacity 3): fast path == slow path (passthru) == per-line reference regex. layer 3: rg command line, all flag subsets up to size {} of -i -S -s -w -x -F --crlf --null-data -v x 6 patterns x one or two -e x 4 files.",
+            "layer 1 (explicit-state, all lines): for every token pattern of length <= 3 over the C11 grammar (length <= 2 for the non-core option sets on the quick tier), {} limit/raw-control-character patterns and every ordered pair of {} pool patterns as two -e patterns, x {} option sets (-i/-S, -w, -x, -F, --crlf, --null-data, --no-unicode): (a) product of the DFA of the pattern as written (harness-built from the flag documentation) and of the matcher's final HIR over all lines free of terminator bytes; (b) product of the final HIR's DFA run inside a buffer (look-behind start / previous terminator; followed by \\n, \\r\\n or end of input) and run on the stripped line: same verdict. Witnesses are confirmed on the real Searcher (fast path vs slow path) before they count. layer 2 (enumeration): every byte string over {{a,b,-,\\n,\\r,0xFF,é}} up to length {} x {} patterns x 7 option sets x invert x (slice, reader capacity 1, reader capacity 3): fast path == slow path (passthru) == per-line reference regex. layer 3: rg command line, all flag subsets up to size {} of -i -S -s -w -x -F --crlf --null-data -v x 6 patterns x one or two -e x 4 files; plus zero patterns (an empty -f file) with and without -v.",
             specials.len(), pool.len(), osets.len(), tier.pick(4, 5), L2_PATTERNS.len(), tier.pick(2, 3)
         ),
     );
